@@ -103,6 +103,56 @@ def build(desc):
     return inc
 
 
+def build_edited(desc):
+    """the same set reached through edits of a larger, different one: blocks replaced in place (add_incon of an existing
+    name, item assignment), a leading and a trailing block deleted, attribute arrays set through the properties"""
+    import numpy as np
+    from t2incons import t2incon, t2blockincon
+    inc = t2incon()
+    inc.add_incon(t2blockincon([1.0, 2.0, 3.0], 'ZZZ98', 0.5, np.array([1e-15, 1e-15, 1e-15]), 7, 8))
+    for b in desc['blocks']:
+        inc.add_incon(t2blockincon([-1.0] * (len(b['vars']) + 1), b['name'], 0.99, np.array([9e-9, 9e-9, 9e-9]), 1, 1))
+    inc.add_incon(t2blockincon([1.0], 'ZZZ99'))
+    inc.timing = {'kcyc': 9, 'iter': 9, 'nm': 9, 'tstart': 9.0, 'sumtim': 9.0}
+    inc.simulator = 'TOUGHREACT' if desc['sim'] == 'TOUGH2' else 'TOUGH2'
+    for k, b in enumerate(desc['blocks']):
+        perm = None if b['perm'] is None else np.array(b['perm'])
+        new = t2blockincon(list(b['vars']), b['name'], b['porosity'], perm, b['nseq'], b['nadd'])
+        if k % 2: inc[b['name']] = new
+        else: inc.add_incon(new)
+    inc.delete_incon('ZZZ98'); inc.delete_incon('ZZZ99')
+    inc.simulator = desc['sim']
+    inc.timing = None if desc['timing'] is None else dict(desc['timing'])
+    return inc
+
+
+DIRTY = {'sim': 'TOUGHREACT', 'reset': False, 'nv': 2, 'check': True,
+         'timing': {'kcyc': 4321, 'iter': 8765, 'nm': 21, 'tstart': 86400.0, 'sumtim': 31557600.0},
+         'blocks': [{'name': 'QQQ%2d' % k, 'nseq': 3, 'nadd': 4, 'porosity': 0.33, 'perm': [4e-14, 5e-14, 6e-14], 'vars': [7.0e6, 250.0]} for k in (1, 2, 3)]}
+
+
+def used_object(tmpdir, flavour):
+    """an object that already holds another file (blocks, nseq/nadd, restart timing; for TOUGHREACT: permeabilities)"""
+    from t2incons import t2incon
+    d = dict(DIRTY, sim=flavour)
+    if flavour == 'TOUGH2': d['blocks'] = [dict(b, perm=None) for b in DIRTY['blocks']]
+    f = os.path.join(tmpdir, 'dirty.incon')
+    build(d).write(f, reset=False)
+    inc = t2incon(f, num_variables=2)
+    if inc.simulator != flavour or inc.timing is None or inc.num_blocks != 3: raise Exception('the used object is not what it should be')
+    return inc
+
+
+def toughreact_timing(line):
+    """a timing record as the TOUGHREACT layout (6d,6d,3d) cuts it -- what a reader that believes the object to be
+    TOUGHREACT makes of the integers of a TOUGH2 record"""
+    def num(t):
+        t = t.replace(' ', '')
+        try: return int(t) if t else None
+        except ValueError: return None
+    return {'kcyc': num(line[0:6]), 'iter': num(line[6:12]), 'nm': num(line[12:15])}
+
+
 def snapshot(inc):
     """plain-data view of a t2incon, through the public attributes"""
     blocks = []
@@ -298,6 +348,11 @@ def classify(desc, what, text1=None, text2=None, got=None):
     if toughreact_without_permeability(desc) and got is not None and got['sim'] == 'TOUGH2' and what in ('flavour', 'timing'):
         # the flavour is lost; when a timing record was kept it is then parsed with the other flavour's layout
         return 't2incon.read:toughreact-without-permeability'
+    if what in ('read-into-used-TOUGHREACT-object:simulator', 'read-into-used-TOUGHREACT-object:timing-cut-as-toughreact') and \
+       got is not None and got['sim'] == 'TOUGH2':
+        # read() never sets the flavour back: after a TOUGHREACT file the object stays TOUGHREACT whatever is read next,
+        # and the timing record of the next (TOUGH2) file is then cut with the TOUGHREACT layout
+        return 't2incon.read:simulator-kept-from-earlier-read'
     if what == 'rewrite-differs:header-sumtim': return 't2incon.write:header-sumtim-double-rounding'
     if what == 'rewrite-differs:lowered-precision': return 't2incon.write:lowered-precision-rounds-into-shorter-exponent'
     return 't2incon.roundtrip:%s' % what
@@ -366,7 +421,53 @@ def roundtrip(desc, tmpdir):
         out['text2'] = open(f2, newline='').read()
     except Exception as e:
         out['rewrite_raised'] = type(e).__name__
+    # the set reached through edits writes the same file
+    try:
+        build_edited(desc).write(f0, reset=desc['reset'])
+        out['text_edited'] = open(f0, newline='').read()
+    except Exception as e:
+        out['text_edited'] = 'raised ' + type(e).__name__
+    # the same file read with .read() into an object that already held another file, of either flavour
+    out['used'], out['text2_used'] = {}, {}
+    for flavour in ('TOUGH2', 'TOUGHREACT'):
+        r = guarded(lambda: used_object(tmpdir, flavour), limit=5)
+        if r[0] != 'OK':
+            out['used'][flavour] = 'the used object could not be prepared'; continue
+        used = r[1]
+        r = guarded(lambda: used.read(f1, desc['nv'], desc['check']), limit=max(2, len(out['text1']) // 20000))
+        if r[0] != 'OK':
+            out['used'][flavour] = 'read into a used object: ' + ('does not return' if r[0] == 'HANG' else type(r[1]).__name__); continue
+        out['used'][flavour] = snapshot(used)
+        if freeze(out['used'][flavour]) == freeze(out['got']):
+            try:
+                used.write(f0, reset=desc['reset'])
+                out['text2_used'][flavour] = open(f0, newline='').read()
+            except Exception as e:
+                out['text2_used'][flavour] = 'raised ' + type(e).__name__
+    # two objects read from the same file share nothing: editing one leaves the other as it was
+    try:
+        a = t2incon(f1, num_variables=desc['nv'], check_blocknames=desc['check'])
+        b = t2incon(f1, num_variables=desc['nv'], check_blocknames=desc['check'])
+        sb = snapshot(b)
+        if a.timing is not None: a.timing['kcyc'] = -77; a.timing['extra'] = 1
+        for k in range(a.num_blocks):
+            blk = a[k]
+            if blk.variable: blk.variable[0] = -7.5
+            if blk.permeability is not None: blk.permeability[0] = -7.5
+            blk.porosity = -7.5; blk.nseq = -7
+        a.simulator = 'other'
+        if a.num_blocks: a.delete_incon(a[0].block)
+        ch = first_change(sb, snapshot(b))
+        if ch: out['shared_state'] = ch
+    except Exception as e:
+        out['shared_state'] = 'raised ' + type(e).__name__
     return out
+
+
+def outcome_key(out):
+    """what must not depend on earlier calls or on other live objects"""
+    return (out.get('write_raised'), out.get('text1'), freeze(out.get('got')), out.get('text2'), out.get('read_raised'),
+            freeze(out.get('used')), out.get('text_edited'))
 
 
 def evaluate_all(desc, out):
@@ -382,10 +483,35 @@ def evaluate_all(desc, out):
         bad.append(('write-depends-on-earlier-write', 'after write(reset=%r) on the same object, line %d: %r' % (not desc['reset'], k, l1[k] if k < len(l1) else '<missing>'),
                     'as written by a fresh object, line %d: %r' % (k, l0[k] if k < len(l0) else '<missing>')))
     if 'read_raised' in out: return bad + [('read-raises', out['read_raised'], 'object read back')]
-    bad += compare(desc, out['got'])
-    if any(w in ('flavour', 'names', 'order', 'timing') for w, _, _ in bad):
-        return bad         # the second file of a different object is not compared
+    cmp_bad = compare(desc, out['got'])
+    bad += cmp_bad
+    if out.get('text_edited') != out['text1']:
+        bad.append(('write-of-edited-object-differs', str(out.get('text_edited'))[:200], 'the file a freshly built object writes'))
+    if 'shared_state' in out:
+        bad.append(('objects-share-state', out['shared_state'], 'editing one object read from a file leaves another object read from it unchanged'))
+    g = out['got']
+    for flavour, u in sorted((out.get('used') or {'': 'not run'}).items()):
+        tag = 'read-into-used-%s-object' % flavour
+        if not isinstance(u, dict):
+            bad.append((tag, str(u), 'as read by t2incon(filename)')); continue
+        leak = u['sim'] != g['sim']
+        if leak: bad.append((tag + ':simulator', u['sim'], g['sim']))
+        if freeze(u['timing']) != freeze(g['timing']):
+            # with the flavour kept from the earlier file, a TOUGH2 timing record is cut with the TOUGHREACT layout
+            tl = out['text1'].split('\n')
+            explained = leak and u['sim'] == 'TOUGHREACT' and g['sim'] == 'TOUGH2' and isinstance(u['timing'], dict) and isinstance(g['timing'], dict) and \
+                len(tl) >= 3 and tl[-3].startswith('+++') and \
+                all(u['timing'].get(k) == v for k, v in toughreact_timing(tl[-2]).items()) and \
+                all(freeze(u['timing'].get(k)) == freeze(g['timing'].get(k)) for k in ('tstart', 'sumtim'))
+            bad.append((tag + (':timing-cut-as-toughreact' if explained else ':timing'), repr(u['timing']), repr(g['timing'])))
+        if freeze(u['blocks']) != freeze(g['blocks']):
+            bad.append((tag + ':blocks', repr([b['name'] for b in u['blocks']][:6]), repr([b['name'] for b in g['blocks']][:6])))
+        t2u = (out.get('text2_used') or {}).get(flavour)
+        if t2u is not None and 'text2' in out and t2u != out['text2']:
+            bad.append(('write-after-' + tag + '-differs', t2u[:200], 'the file written after t2incon(filename)'))
     if 'rewrite_raised' in out: return bad + [('rewrite-raises', out['rewrite_raised'], 'second file written')]
+    if any(w in ('flavour', 'names', 'order', 'timing') for w, _, _ in cmp_bad):
+        return bad         # the second file of a different object is not compared
     if out['text2'] != out['text1']:
         bad += rewrite_differences(desc, out['got'], out['text1'], out['text2'])
     return bad
